@@ -125,6 +125,11 @@ class Engine:
         if req == "!load":
             self.load(rel)
             return None
+        if req.startswith("item:"):
+            f = rel[req[5:]]                 # the item interface hands back the bound method
+            if not callable(f):
+                raise TypeError(f"rel[{req[5:]!r}] is not the method")
+            return None
         if req.startswith("call:"):
             if rec is not None:
                 rec.events.append({"ev": "enter", "key": req, "depth": 0})
